@@ -346,7 +346,15 @@ fn c11_pass(sink: &mut Sink, rng: &mut Rng, thorough: bool) {
       }
     }
     let txt = st_txt(&m);
-    let moc2 = to_moc2(&m);
+    // 1 in 4: the declared depths are deeper than every element's own depth (deepest levels unoccupied): only the
+    // depth-only last element / the header keywords carry them
+    let deeper = k % 4 == 2;
+    let moc2 = if deeper {
+      RangeMOC2::new((DT_() + 1).min(61), DS + 1, m.iter().map(|e| RangeMOC2Elem::new(mk_moc(DT_(), &e.0), mk_moc(DS, &e.1))).collect())
+    } else {
+      to_moc2(&m)
+    };
+    if deeper { sink.count("st-moc:deepest-levels-unoccupied"); }
     let nontrivial = !m.is_empty();
     // ---- FITS v2
     let mut buf = Vec::new();
@@ -415,7 +423,7 @@ fn c11_pass(sink: &mut Sink, rng: &mut Rng, thorough: bool) {
     }
     // unfolded text: the real writer's bytes = the model's text
     let mut t = Vec::new();
-    if (&moc2).into_range_moc2_iter().into_cellcellrange_moc2_iter().to_ascii_ivoa(None, false, &mut t).is_ok() {
+    if !deeper && (&moc2).into_range_moc2_iter().into_cellcellrange_moc2_iter().to_ascii_ivoa(None, false, &mut t).is_ok() {
       let hx: String = t.iter().map(|b| format!("{:02x}", b)).collect();
       sink.emit(&format!("st_ascii_enc 64 {} {} {}", moc2.depth_max_1(), moc2.depth_max_2(), txt), &hx, nontrivial);
     }
